@@ -968,7 +968,7 @@ def rule_tyrule(ctx):
 
     def judge(form, fields, want, label="", want_err=False):
         nonlocal_n[0] += 1
-        f, outs, msg = run(form, fields)
+        f, outs, msg = run(form, fields, several=True)
         ikey = "%s%s" % (form.split("::")[-1], label)
         if msg:
             res.inst(ikey, f["sp"]["file"], f["sp"]["line"], "violation")
@@ -985,13 +985,24 @@ def rule_tyrule(ctx):
             else:
                 res.inst(ikey, f["sp"]["file"], f["sp"]["line"], "ok", "rejected")
             return
-        if len(oks) != 1:
-            raise AnalysisError("R-TYRULE: %s%s has %d accepting paths when every premise holds (1 expected)" % (form, label, len(oks)))
-        got = set(oks[0].events)
+        if not oks:
+            raise AnalysisError("R-TYRULE: %s%s has no accepting path when every premise holds" % (form, label))
+        if len(oks) > 1 and any(str(c_[0]).startswith("switch@") for o_ in oks for c_ in o_.conds):
+            raise AnalysisError("R-TYRULE: %s%s has %d accepting paths that differ by a value the analysis cannot follow" % (form, label, len(oks)))
+        # several accepting paths differ by a property of the (symbolic) term - an empty argument list, say: the rule has the same
+        # premises for all of them
         wantset = set(want)
-        if got == wantset:
-            res.inst(ikey, f["sp"]["file"], f["sp"]["line"], "ok", "%d premises" % len(want))
+        worst = None
+        for o_ in oks:
+            got = set(o_.events)
+            if got != wantset:
+                worst = (got, [str(c_[0]) for c_ in o_.conds][-2:])
+        if worst is None:
+            res.inst(ikey, f["sp"]["file"], f["sp"]["line"], "ok", "%d premises%s" % (len(want), "" if len(oks) == 1 else " on each of %d paths" % len(oks)))
             return
+        got, conds_ = worst
+        if len(oks) > 1:
+            label = label + " when " + " and ".join(conds_)
         missing = sorted(map(str, wantset - got))
         extra = sorted(map(str, got - wantset))
         res.inst(ikey, f["sp"]["file"], f["sp"]["line"], "violation")
@@ -1029,15 +1040,16 @@ def rule_tyrule(ctx):
     judge("var::XVar", {"var": "zz", "ty": NONE, "chi": NONE}, [], ":unbound", want_err=True)
     sig_ctx = Adt(F + "context::TypingContext", "TypingContext", {"span": Sym("sigspan"), "bindings": Vec([binding("p", "Prd", decl("TP"))])})
     table = {"defs": MapVal([("f", Adt(None, None, {"0": sig_ctx, "1": decl("RET")}))])}
-    judge("call::Call", {"name": "f", "__table__": table}, [eq(EXP, "decl:RET"), ("args", BASE, (("p", "Prd", "decl:TP"),))])
+
+    def arglist(n_):
+        return Adt(F + "arguments::Arguments", "Arguments", {"entries": Vec([Sym("arg%d" % i_) for i_ in range(n_)])})
+    # the argument list is checked against the signature whatever its length - an empty list too (that is where the arity is compared)
+    for n_ in (0, 1, 2):
+        judge("call::Call", {"name": "f", "args": arglist(n_), "__table__": table}, [eq(EXP, "decl:RET"), ("args", BASE, (("p", "Prd", "decl:TP"),))], ":%d-arguments" % n_)
     judge("call::Call", {"name": "g", "__table__": table}, [], ":undefined", want_err=True)
     # constructors and destructors: the xtor must belong to the type it is used at, its arguments are checked against its signature
     noargs = Adt(F + "types::TypeArgs", "TypeArgs", {"span": NONE, "args": Vec([])})
-    judge("constructor::Constructor", {"id": "K", "__table__": {"ctors": MapVal([("K", sig_ctx)])}},
-          [("tycheck", EXP), ("owner-of", "K"), ("args", BASE, (("p", "Prd", "decl:TP"),)), eq(EXP, "decl:OWNER")])
     judge("constructor::Constructor", {"id": "K", "__table__": {"ctors": MapVal([("J", sig_ctx)])}}, [], ":undefined", want_err=True)
-    judge("destructor::Destructor", {"id": "d", "type_args": noargs, "__table__": {"dtors": MapVal([("d", Adt(None, None, {"0": sig_ctx, "1": decl("RET")}))])}},
-          [("owner-of", "d"), chk("scrutinee", BASE, "decl:OWNER"), ("args", BASE, (("p", "Prd", "decl:TP"),)), eq(EXP, "decl:RET")])
     # pattern and copattern matches: exactly one clause per xtor of the type, whatever the order they are written in; the checked
     # clause list is in declaration order; each body is checked at the right type with the clause's binders added
     POL = F + "declarations::Polarity"
@@ -1116,6 +1128,12 @@ def rule_tyrule(ctx):
                 res.inst(label, f["sp"]["file"], f["sp"]["line"], "ok", "accepted, clauses in declaration order, bodies checked with their binders")
         if n_acc != 2:
             raise AnalysisError("R-TYRULE: %s: %d accepted clause lists folded (2 expected: A,B and B,A)" % (form, n_acc))
+    for n_ in (0, 1, 2):
+        judge("constructor::Constructor", {"id": "K", "args": arglist(n_), "__table__": {"ctors": MapVal([("K", sig_ctx)])}},
+              [("tycheck", EXP), ("owner-of", "K"), ("args", BASE, (("p", "Prd", "decl:TP"),)), eq(EXP, "decl:OWNER")], ":%d-arguments" % n_)
+        judge("destructor::Destructor", {"id": "d", "type_args": noargs, "args": arglist(n_),
+                                         "__table__": {"dtors": MapVal([("d", Adt(None, None, {"0": sig_ctx, "1": decl("RET")}))])}},
+              [("owner-of", "d"), chk("scrutinee", BASE, "decl:OWNER"), ("args", BASE, (("p", "Prd", "decl:TP"),)), eq(EXP, "decl:RET")], ":%d-arguments" % n_)
     res.require_floor(18)
     return res
 
